@@ -351,6 +351,13 @@ def r11_8(run, model):
     run.ob("R11.8", "escape_go_string|control characters are written as escapes", ctrl, site(GOPP, f.node["sp"]),
            f"guards of the escaping match: {guards or 'none'}",
            witness="a NUL byte in a multi-line string is copied raw into the Go source: gc reports `invalid NUL character`")
+    # the escapes are written in Go's syntax: Rust's own escape iterators spell a code point `\\u{1b}`, which no Go scanner accepts
+    rust_esc = [c for g in model.scope_fns(f) if g.body is not None for c in S.walk(g.body)
+                if (c["k"] == "MethodCall" and c["method"] in ("escape_unicode", "escape_default", "escape_debug")) or
+                (c["k"] == "Macro" and re.search(r"\{[^{}]*:\??\?\}|\{:\?\}|\{:#\?\}", S.norm_ws(run.facts.text(GOPP, c["sp"]))))]
+    run.ob("R11.8", "escape_go_string|escapes are spelled in Go's syntax", not rust_esc, site(GOPP, (rust_esc[0] if rust_esc else f.node)["sp"]),
+           f"Rust escape iterators / Debug formatting used while escaping: {len(rust_esc)}",
+           witness="an ESC character in a multi-line string is emitted as \\u{1b}: gc reports `invalid character in escape sequence`")
     run.ob("R11.8", "escape_go_string|a byte order mark is written as an escape", bom, site(GOPP, f.node["sp"]),
            f"guards of the escaping match: {guards or 'none'}",
            witness="a string containing U+FEFF is copied raw: gc reports `invalid BOM in the middle of the file`")
